@@ -662,3 +662,54 @@ def c12_history(spec: dict) -> dict:
         builtins.open = real_open
         io.open = real_open
     return {"viol": V[:5], "log": log, "tape": list(tape.rec), "stats": stats, "steps": clock.steps}
+
+
+# ----------------------------------------------------------------------------- C13 shadow run
+
+
+def c13_shadow_run(texts: list, rng_seed: str, workdir: str) -> dict:
+    """All-native interpreter: run each text end to end (parse, schedule, every report) plus the probe
+    client, with the shadow monitor comparing native and pure-Python outcome of every paired call."""
+    import random
+
+    from .shadow import Shadow, probe_client
+
+    from scriptplan.parser.tjp_parser import ProjectFileParser
+
+    rng = random.Random(rng_seed)
+    outdir = os.path.join(workdir, "out")
+    os.makedirs(outdir, exist_ok=True)
+    sh = Shadow()
+    have = sh.install()
+    outcomes = []
+    probes = 0
+    try:
+        parser = ProjectFileParser()
+        for text in texts:
+            with _quiet(), contextlib.redirect_stdout(io.StringIO()):
+                try:
+                    project = parser.parse(text)
+                    outcomes.append("scheduled")
+                except SystemExit:
+                    outcomes.append("SystemExit")
+                    continue
+                except Exception as e:
+                    outcomes.append(type(e).__name__)
+                    try:
+                        project = parser.parse(text, schedule=False)
+                    except BaseException:
+                        continue
+                try:
+                    for k in range(len(list(project.reports))):
+                        try:
+                            report_observation(project, k, outdir)
+                        except Exception:
+                            pass
+                    probes += probe_client(project, rng)
+                except Exception as e:
+                    outcomes.append("probe:" + type(e).__name__)
+    finally:
+        sh.uninstall()
+    rep = sh.report()
+    rep.update(native=have, outcomes=outcomes, probes=probes)
+    return rep
